@@ -50,6 +50,10 @@ def _run(fn, indicator):
         a = fn.atomic(nid) if k == "call" else None
         if a and a["field"].endswith("left_right::_lr_indicator") and a["kind"] == "load":
             return indicator
+        if k == "call" and n.get("inl_ret_var"):
+            if n["inl_ret_var"] in env:
+                return env[n["inl_ret_var"]]       # value returned by a virtually inlined helper
+            raise _Stuck("inlined helper did not return on this path")
         if k == "lit" or (k == "ref" and n.get("dk") == "enumconst") or (isinstance(n.get("v"), int) and k in ("ref", "member")):
             return n["v"]
         if k == "member" and n.get("leaf") in ("_left", "_right"):
